@@ -53,6 +53,8 @@ def selfcheck_kernels(ir, cpu_ops, rng, quick=True):
     cases = nontrivial = 0
     reps = 2 if quick else 8
 
+    have = set(ir["kernels"])
+
     def cmp_vec(kernel, desc, got, want):
         nonlocal cases, nontrivial
         cases += 1
@@ -78,6 +80,8 @@ def selfcheck_kernels(ir, cpu_ops, rng, quick=True):
                 ("softmax_forward", (a, axis), lambda f: {"a": f[0]}),
                 ("log_softmax_forward", (a, axis), lambda f: {"a": f[0]}),
             ):
+                if kname not in have:
+                    continue
                 out = getattr(cpu_ops, kname)(*[x.copy() if isinstance(x, np.ndarray) else x for x in impl_args])
                 fa, fo = fibres(a, axis), fibres(out, axis)
                 for r in range(fa.shape[0]):
@@ -86,6 +90,8 @@ def selfcheck_kernels(ir, cpu_ops, rng, quick=True):
             s = cpu_ops.softmax_forward(a.copy(), axis)
             ls = cpu_ops.log_softmax_forward(a.copy(), axis)
             for kname, second, pname in (("softmax_backward", s, "softmax_a"), ("log_softmax_backward", ls, "log_softmax_a")):
+                if kname not in have:
+                    continue
                 out = getattr(cpu_ops, kname)(g.copy(), second.copy(), axis)
                 fg, fs, fo = fibres(g, axis), fibres(second, axis), fibres(out, axis)
                 for r in range(fg.shape[0]):
@@ -100,6 +106,8 @@ def selfcheck_kernels(ir, cpu_ops, rng, quick=True):
         yt = rs.randint(0, C, size=(N,))
         g = rs.standard_normal((N, 1))
         for kname in ("nll_loss_forward", "cross_entropy_loss_forward"):
+            if kname not in have:
+                continue
             out = getattr(cpu_ops, kname)(yp.copy(), yt.copy())
             if out.shape != (N, 1):
                 mism.append({"kernel": kname, "case": "result shape %s, expected (N,1)" % (out.shape,)}); continue
@@ -108,6 +116,8 @@ def selfcheck_kernels(ir, cpu_ops, rng, quick=True):
                 cmp_vec(kname, {"N": N, "C": C, "row": r, "y_pred": yp[r].tolist(), "y_true": int(yt[r])}, got, [out[r, 0]])
                 nontrivial += 1 if C > 1 else 0
         for kname in ("nll_loss_backward", "cross_entropy_loss_backward"):
+            if kname not in have:
+                continue
             out = getattr(cpu_ops, kname)(g.copy(), yp.copy(), yt.copy())
             for r in range(N):
                 got = ev.run(kname, {"grad": float(g[r, 0]), "y_pred": yp[r].tolist(), "y_true": int(yt[r])})[0]
@@ -128,12 +138,16 @@ def selfcheck_kernels(ir, cpu_ops, rng, quick=True):
             rm, rv = opt(hrm, C, -2, 2), opt(hrv, C, 0.3, 3)
             mom, eps = float(rs.choice([0.1, 0.3])), float(rs.choice([1e-5, 1e-3, 0.1]))
             cp = lambda v: None if v is None else v.copy()
-            res = cpu_ops.batch_norm_forward(x.copy(), cp(gamma), cp(beta), cp(rm), cp(rv), tr, mom, eps)
+            fx = channel_fibres(x)
+            if "batch_norm_forward" not in have:
+                res = (None,) * 5
+            else:
+                res = cpu_ops.batch_norm_forward(x.copy(), cp(gamma), cp(beta), cp(rm), cp(rv), tr, mom, eps)
             if len(res) != 5:
                 mism.append({"kernel": "batch_norm_forward", "case": "returns %d values" % len(res)}); continue
             out, nrm, nrv, mean, var = res
-            fx, fo = channel_fibres(x), channel_fibres(out)
-            for c in range(C):
+            fo = channel_fibres(out) if out is not None else None
+            for c in range(C if out is not None else 0):
                 sc = lambda v: None if v is None else float(v[c])
                 got = ev.run("batch_norm_forward", {"x": fx[c].tolist(), "gamma": sc(gamma), "beta": sc(beta), "running_mean": sc(rm),
                                                     "running_var": sc(rv), "training": tr, "momentum": mom, "eps": eps})
@@ -148,6 +162,8 @@ def selfcheck_kernels(ir, cpu_ops, rng, quick=True):
             g = rs.standard_normal(shape)
             mean_s, var_s = rs.uniform(-2, 2, size=(C,)), rs.uniform(0.3, 3, size=(C,))
             track = bool(hrm and hrv)
+            if "batch_norm_backward" not in have:
+                continue
             res = cpu_ops.batch_norm_backward(g.copy(), x.copy(), cp(gamma), cp(beta), track, tr, eps, mean_s.copy(), var_s.copy())
             if len(res) != 3:
                 mism.append({"kernel": "batch_norm_backward", "case": "returns %d values" % len(res)}); continue
@@ -165,7 +181,7 @@ def selfcheck_kernels(ir, cpu_ops, rng, quick=True):
                 if not (close(got[1], sc(dg)) and close(got[2], sc(db))):
                     mism.append({"kernel": "batch_norm_backward/gamma,beta", "case": desc, "translated": got[1:], "implementation": [sc(dg), sc(db)]})
     # ---- log_forward (scalar; used by the C14 epsilon bound)
-    for v in (0.0, 1e-13, 0.3, 1.0, 7.5):
+    for v in ((0.0, 1e-13, 0.3, 1.0, 7.5) if "log_forward" in have else ()):
         cases += 1
         got = ev.run("log_forward", {"a": v})[0]
         want = float(cpu_ops.log_forward(np.array(v)))
@@ -198,6 +214,8 @@ def selfcheck_wiring(w, impl, rng):
                             dict(running_mean=T(rs.uniform(-1, 1, 3), False) if stats else None,
                                  running_var=T(rs.uniform(0.5, 2, 3), False) if stats else None, training=tr, momentum=0.1, eps=1e-3)))
     for name, tins, other in configs:
+        if name not in w:
+            continue
         cases += 1
         wi = w[name]
         stem = wi["stem"]
